@@ -7,6 +7,14 @@
 //!     with `f_native` the f64 method / formula named in the op's body.
 //! (c) frexp / ldexp / ldexp(frexp(x)) on IEEE-754 bit patterns (integers cross the boundary, never float text);
 //!     the model computes over exact rationals.  frexp(±inf) runs under the watchdog.
+//!
+//! Robustness streams (FRAMEWORK.md): closures on `big_shapes()` (> 256 / 1024 / 4096 elements: the enumerating variants with
+//! closures depending on the passed index AND on the number of earlier calls) and `zero_shapes()`, each closure case also on the
+//! `f64` (tag 0 = -0.0, bit-wise), `u8` and `String` images of the array (the iteration code is generic);  every one-operand op
+//! on THREE receivers (plain `a.op()`, `Ok(a).op()` through `impl … for Result<Array<N>, ArrayError>` — bit-identical — and
+//! `Err(_)`, which must stay an error), on i8 i16 i32 i64 u8 u16 u32 u64 f32 f64 with values at the limits of every type,
+//! beyond 2^53 / 2^63, subnormal, -0.0 (native kernel with the harness's OWN casts, not the crate's to_f64/from_f64), on big and
+//! zero-length shapes; frexp / ldexp / recombination on the three receivers and on long arrays.
 use arrharness::*;
 
 // ------------------------------------------------------------------ closures
@@ -31,29 +39,66 @@ fn show_log(l: &Log) -> String {
     l.iter().map(|(k, i, v)| format!("{}/{}/{}", k, i.map_or("_".to_string(), |x| x.to_string()), v)).collect::<Vec<_>>().join(";")
 }
 
-fn exec_closure(op: &str, args: &[&str]) -> Option<String> {
-    let a = parse_arr_i64(args[0]);
-    let p = Clo::parse(args.get(1)?)?;
+/// element types for the (value-blind) iteration code: the i64 tags themselves, f64 with tag 0 = -0.0 (bit-wise), u8 (only for
+/// arrays whose tags all fit 0..=250) and String (a non-Copy element)
+trait Tag: ArrayElement + 'static {
+    const NAME: &'static str;
+    fn of(t: i64) -> Option<Self>;
+    fn num(&self) -> i64;
+    /// the element as tag text; a float that is not bit-identical to the image of its tag is made visible
+    fn back(&self) -> String { self.num().to_string() }
+}
+impl Tag for i64 { const NAME: &'static str = "i64"; fn of(t: i64) -> Option<i64> { Some(t) } fn num(&self) -> i64 { *self } }
+impl Tag for u8 { const NAME: &'static str = "u8"; fn of(t: i64) -> Option<u8> { if (0..=250).contains(&t) { Some(t as u8) } else { None } } fn num(&self) -> i64 { *self as i64 } }
+impl Tag for String { const NAME: &'static str = "String"; fn of(t: i64) -> Option<String> { Some(t.to_string()) } fn num(&self) -> i64 { self.parse().unwrap_or(i64::MIN) } }
+impl Tag for f64 {
+    const NAME: &'static str = "f64";
+    fn of(t: i64) -> Option<f64> { if t.abs() < (1 << 53) { Some(tag_f64z(t)) } else { None } }
+    fn num(&self) -> i64 { *self as i64 }
+    fn back(&self) -> String { let t = *self as i64; if self.to_bits() == tag_f64z(t).to_bits() { t.to_string() } else { format!("{:?}(bits {:#x})", self, self.to_bits()) } }
+}
+
+fn show_tag_arr<T: Tag>(a: &Array<T>) -> String {
+    format!("{}:{}", show_list(&a.get_shape().unwrap()), show_list(&a.get_elements().unwrap().iter().map(Tag::back).collect::<Vec<_>>()))
+}
+
+/// transcript (result + call log) of one closure operation on the `T` image of the tag array; `None` = a tag has no `T` image
+fn closure_on<T: Tag>(op: &str, raw: &(Vec<usize>, Vec<i64>), p: Clo, init: i64) -> Option<String> {
+    let elems: Vec<T> = raw.1.iter().map(|&t| T::of(t)).collect::<Option<Vec<T>>>()?;
+    let a: Array<T> = Array::new(elems, raw.0.clone()).expect("harness: malformed array literal in case line");
     let mut k: i64 = 0;
     let mut log: Log = vec![];
+    let op = op.to_string();
     Some(guarded(move || {
-        let head = match op {
-            "map" => res_arr(&a.map(|&v| { let r = p.val(k, None, v); log.push((k, None, v)); k += 1; r })),
-            "map_e" => res_arr(&a.map_e(|i, &v| { let r = p.val(k, Some(i), v); log.push((k, Some(i), v)); k += 1; r })),
-            "filter" => res_arr(&a.filter(|&v| { let r = p.acc(k, None, v); log.push((k, None, v)); k += 1; r })),
-            "filter_e" => res_arr(&a.filter_e(|i, &v| { let r = p.acc(k, Some(i), v); log.push((k, Some(i), v)); k += 1; r })),
-            "filter_map" => res_arr(&a.filter_map(|&v| { let r = p.opt(k, None, v); log.push((k, None, v)); k += 1; r })),
-            "filter_map_e" => res_arr(&a.filter_map_e(|i, &v| { let r = p.opt(k, Some(i), v); log.push((k, Some(i), v)); k += 1; r })),
-            "fold" => {
-                let init: i64 = args[2].parse().unwrap();
-                show_res(&a.fold(init, |&acc, &v| { let r = p.step(k, acc, v); log.push((k, None, v)); k += 1; r }), |v| v.to_string())
-            }
-            "for_each" => show_res(&a.for_each(|&v| { log.push((k, None, v)); k += 1; }), |_| "unit".to_string()),
-            "for_each_e" => show_res(&a.for_each_e(|i, &v| { log.push((k, Some(i), v)); k += 1; }), |_| "unit".to_string()),
+        let head = match op.as_str() {
+            "map" => res_arr(&a.map(|v| { let v = v.num(); let r = p.val(k, None, v); log.push((k, None, v)); k += 1; r })),
+            "map_e" => res_arr(&a.map_e(|i, v| { let v = v.num(); let r = p.val(k, Some(i), v); log.push((k, Some(i), v)); k += 1; r })),
+            "filter" => show_res(&a.filter(|v| { let v = v.num(); let r = p.acc(k, None, v); log.push((k, None, v)); k += 1; r }), show_tag_arr),
+            "filter_e" => show_res(&a.filter_e(|i, v| { let v = v.num(); let r = p.acc(k, Some(i), v); log.push((k, Some(i), v)); k += 1; r }), show_tag_arr),
+            "filter_map" => res_arr(&a.filter_map(|v| { let v = v.num(); let r = p.opt(k, None, v); log.push((k, None, v)); k += 1; r })),
+            "filter_map_e" => res_arr(&a.filter_map_e(|i, v| { let v = v.num(); let r = p.opt(k, Some(i), v); log.push((k, Some(i), v)); k += 1; r })),
+            "fold" => show_res(&a.fold(init, |&acc, v| { let v = v.num(); let r = p.step(k, acc, v); log.push((k, None, v)); k += 1; r }), |v| v.to_string()),
+            "for_each" => show_res(&a.for_each(|v| { log.push((k, None, v.num())); k += 1; }), |_| "unit".to_string()),
+            "for_each_e" => show_res(&a.for_each_e(|i, v| { log.push((k, Some(i), v.num())); k += 1; }), |_| "unit".to_string()),
+            "into_iter" => { let v: Vec<String> = a.into_iter().map(|x| x.back()).collect(); format!("ok {}", show_list(&v)) }
+            "into_iter_ref" => { let mut v: Vec<String> = vec![]; for x in &a { v.push(x.back()); } format!("ok {}", show_list(&v)) }
             _ => unreachable!(),
         };
-        format!("{}|{}", head, show_log(&log))
+        if op.starts_with("into_iter") { head } else { format!("{}|{}", head, show_log(&log)) }
     }))
+}
+
+/// the i64 transcript; the same call on the other element types must give the same transcript
+fn exec_closure(op: &str, args: &[&str]) -> Option<String> {
+    let raw = parse_arr_raw(args[0]);
+    if raw.0.iter().product::<usize>() != raw.1.len() { return None; }
+    let (p, init) = if op.starts_with("into_iter") { (Clo { a: 0, b: 0, c: 0, m: 1, t: 0 }, 0) } else {
+        (Clo::parse(args.get(1)?)?, if op == "fold" { args.get(2)?.parse().ok()? } else { 0 }) };
+    let base = closure_on::<i64>(op, &raw, p, init)?;
+    for (name, other) in [(<f64 as Tag>::NAME, closure_on::<f64>(op, &raw, p, init)), (<u8 as Tag>::NAME, closure_on::<u8>(op, &raw, p, init)), (<String as Tag>::NAME, closure_on::<String>(op, &raw, p, init))] {
+        if let Some(t) = other { if t != base { return Some(format!("TYPE-DIVERGENCE on Array<{name}>: {}; on Array<i64>: {}", truncate(&t, 400), truncate(&base, 400))); } }
+    }
+    Some(base)
 }
 
 // ------------------------------------------------------------------ unary math ops
@@ -65,30 +110,137 @@ fn canon(x: f64) -> u64 { if x.is_nan() { NAN_BITS } else { x.to_bits() } }
 trait Key { fn key(&self) -> u64; }
 impl Key for f64 { fn key(&self) -> u64 { canon(*self) } }
 impl Key for f32 { fn key(&self) -> u64 { if self.is_nan() { NAN_BITS } else { self.to_bits() as u64 } } }
-impl Key for i32 { fn key(&self) -> u64 { *self as i64 as u64 } }
-impl Key for isize { fn key(&self) -> u64 { *self as i64 as u64 } }
 impl Key for bool { fn key(&self) -> u64 { *self as u64 } }
+macro_rules! key_int { ($($t:ty),*) => { $(impl Key for $t { fn key(&self) -> u64 { *self as i64 as u64 } })* } }
+key_int!(i8, i16, i32, i64, isize, u8, u16, u32, u64);
 
 const F64_DOM: &[f64] = &[0.5, -0.5, 1.0, -1.0, 2.5, -2.5, 0.1, 3.0, 10.0, 100.7, -7.3, 1e-5, 0.999, 0.25, 6.283185307179586, 42.0, -0.75];
 const F64_EDGE: &[f64] = &[0.0, -0.0, 1.0, -1.0, f64::MIN_POSITIVE, 5e-324, f64::MAX, f64::MIN, 1e308, 709.78, 710.0, -745.2, 0.9999999999999999,
     1.0000000000000002, 1.5, -1.5, 0.49999999999999994, 4503599627370496.5, 9007199254740992.0, -9007199254740993.0, 1e-320, 8.0, 8.000000000000002, 2147483648.0, -2147483649.0, 1e19];
 const F64_SPEC: &[f64] = &[f64::NAN, f64::INFINITY, f64::NEG_INFINITY, 1.0, -2.0];
 const I32_VALS: &[i32] = &[0, 1, -1, 2, -2, 7, -7, 100, -100, i32::MAX, i32::MIN, 46340, 20, 3, -3, 90, 180, 1000000];
+/// robustness class `lim`: around 2^63 / 2^64 / f32::MAX / 2^53 / 2^52 / 2^31 / 2^24, halves next to the integer limits of every
+/// narrow type, f64 and f32 subnormals, both zeros
+const F64_LIM: &[f64] = &[9223372036854775808.0, -9223372036854775808.0, 18446744073709551616.0, 1e19, -1e19, 9.3e18, -9.3e18, 3.4028234663852886e38, -3.4028234663852886e38, 3.5e38,
+    9007199254740994.0, 9007199254740991.0, 4503599627370496.5, -4503599627370496.5, 2147483647.5, 2147483648.5, -2147483648.5, 16777217.0, 1e-40, -1e-40, 1.401298464324817e-45, 5e-324, -5e-324,
+    2.225073858507201e-308, -0.0, 0.0, 1000000000000000.4, 127.5, -128.5, 255.5, 32767.5, -32768.5, 65535.5, 4294967295.5, -0.4, 0.6, 1e300, -1e300, 88.8, 89.0, 11.1, -1e-17];
+/// small values for the integer element types (every type keeps the ones it can hold)
+const INT_DOM: &[i128] = &[0, 1, -1, 2, -2, 7, -7, 100, -100, 3, -3, 20, 90, 45, 10, 5, -5, 12, 64, 11];
+fn int_lim(min: i128, max: i128) -> Vec<i128> {
+    let mut v = vec![max, min, max - 1, min + 1, max / 2, max / 2 + 1, min / 2, 0, 1, -1, 127, 128, -128, -129, 255, 256, 181, 182, 32767, 32768, -32768, -32769, 65535, 65536, 46340, 46341,
+        2147483647, 2147483648, -2147483648, -2147483649, 4294967295, 4294967296, 16777217, (1 << 53) - 1, 1 << 53, (1 << 53) + 1, (1 << 53) + 3, -((1 << 53) + 1), (1 << 62) + 1, 1 << 63, (1 << 63) + 1, 3 << 62, 3037000500, 2642246, 2642245];
+    v.retain(|x| *x >= min && *x <= max);
+    v
+}
 
 fn f64_value(cls: &str, j: usize) -> f64 {
     match cls {
         "dom" => F64_DOM[j % F64_DOM.len()],
         "edge" => F64_EDGE[j % F64_EDGE.len()],
         "spec" => F64_SPEC[j % F64_SPEC.len()],
+        "lim" => F64_LIM[j % F64_LIM.len()],
         _ => { let n = F64_DOM.len() + F64_EDGE.len() + F64_SPEC.len(); let j = j % n;
                if j < F64_DOM.len() { F64_DOM[j] } else if j < F64_DOM.len() + F64_EDGE.len() { F64_EDGE[j - F64_DOM.len()] } else { F64_SPEC[j - F64_DOM.len() - F64_EDGE.len()] } }
     }
 }
 
-trait Elem: NumericOps + Key { fn value(cls: &str, j: usize) -> Self; }
-impl Elem for f64 { fn value(cls: &str, j: usize) -> f64 { f64_value(cls, j) } }
-impl Elem for f32 { fn value(cls: &str, j: usize) -> f32 { f64_value(cls, j) as f32 } }
-impl Elem for i32 { fn value(_cls: &str, j: usize) -> i32 { I32_VALS[j % I32_VALS.len()] } }
+/// which receiver the operation is called on
+#[derive(Clone, Copy, PartialEq)]
+enum Recv { Plain, Chained, ErrRecv }
+fn ok_of<N: Numeric>(a: &Array<N>) -> Result<Array<N>, ArrayError> { Ok(a.clone()) }
+fn err_of<N: Numeric>(_a: &Array<N>) -> Result<Array<N>, ArrayError> { Err(ArrayError::NotImplemented) }
+/// evaluate `$body` with `$r` bound to `&Array<N>`, to `&Ok(array)` or to `&Err(_)`
+macro_rules! on_recv {
+    ($recv:expr, $a:expr, |$r:ident| $body:expr) => {
+        match $recv {
+            Recv::Plain => { let $r = $a; $body }
+            Recv::Chained => { let tmp = ok_of($a); let $r = &tmp; $body }
+            Recv::ErrRecv => { let tmp = err_of($a); let $r = &tmp; $body }
+        }
+    };
+}
+
+type Keys = Result<(Vec<usize>, Vec<u64>), String>;
+fn keys<T: ArrayElement + Key>(r: Result<Array<T>, ArrayError>) -> Keys {
+    match r {
+        Ok(arr) => {
+            if !consistent(&arr) { return Err("inconsistent".to_string()); }
+            Ok((arr.get_shape().unwrap(), arr.get_elements().unwrap().iter().map(Key::key).collect()))
+        }
+        Err(e) => Err(format!("err {}", err_name(&e))),
+    }
+}
+
+trait Elem: Numeric + Key + 'static {
+    fn value(cls: &str, j: usize) -> Self;
+    // the harness's own casts and predicates (the crate's to_f64 / from_f64 / is_inf / max / bitwise_not are NOT used by the oracle)
+    fn f(self) -> f64;
+    fn t(v: f64) -> Self;
+    fn nan(self) -> bool { false }
+    fn inf(self) -> bool { false }
+    fn maxv() -> Self;
+    fn bnot(self) -> Self;
+    /// ops of traits bounded by `NumericOps` (trigonometric.rs, special.rs) or `Floating` (floating.rs); `None` = not defined for this type
+    fn call_extra(_op: &str, _a: &Array<Self>, _recv: Recv) -> Option<Keys> { None }
+}
+fn numops_on<N: NumericOps + Key, R: ArrayTrigonometric<N> + ArrayMathSpecial<N>>(r: &R, op: &str) -> Option<Keys> {
+    Some(match op {
+        "sin" => keys(r.sin()), "cos" => keys(r.cos()), "tan" => keys(r.tan()),
+        "asin" => keys(r.asin()), "acos" => keys(r.acos()), "atan" => keys(r.atan()),
+        "degrees" => keys(r.degrees()), "rad2deg" => keys(r.rad2deg()), "radians" => keys(r.radians()), "deg2rad" => keys(r.deg2rad()),
+        "i0" => keys(r.i0()), "sinc" => keys(r.sinc()),
+        _ => return None,
+    })
+}
+fn floating_on<N: Floating + Key, R: ArrayFloating<N>>(r: &R, op: &str) -> Option<Keys> {
+    Some(match op { "signbit" => keys(r.signbit()), "spacing" => keys(r.spacing()), _ => return None })
+}
+macro_rules! elem_int {
+    ($t:ty, numops) => { elem_int!(@imp $t, fn call_extra(op: &str, a: &Array<Self>, recv: Recv) -> Option<Keys> { on_recv!(recv, a, |r| numops_on(r, op)) }); };
+    ($t:ty, plain) => { elem_int!(@imp $t, ); };
+    (@imp $t:ty, $($extra:tt)*) => {
+        impl Elem for $t {
+            fn value(cls: &str, j: usize) -> Self {
+                let pick = |l: &[i128]| -> Self { let v: Vec<$t> = l.iter().filter_map(|x| <$t>::try_from(*x).ok()).collect(); v[j % v.len()] };
+                if cls == "lim" { pick(&int_lim(<$t>::MIN as i128, <$t>::MAX as i128)) } else { pick(INT_DOM) }
+            }
+            fn f(self) -> f64 { self as f64 }
+            fn t(v: f64) -> Self { v as $t }
+            fn maxv() -> Self { <$t>::MAX }
+            fn bnot(self) -> Self { !self }
+            $($extra)*
+        }
+    };
+}
+elem_int!(i8, numops); elem_int!(i16, numops); elem_int!(i64, numops);
+elem_int!(u8, plain); elem_int!(u16, plain); elem_int!(u32, plain); elem_int!(u64, plain);
+impl Elem for i32 {
+    // (the original stream ignores the class for i32)
+    fn value(cls: &str, j: usize) -> i32 { if cls == "lim" { let v = int_lim(i32::MIN as i128, i32::MAX as i128); v[j % v.len()] as i32 } else { I32_VALS[j % I32_VALS.len()] } }
+    fn f(self) -> f64 { self as f64 }
+    fn t(v: f64) -> Self { v as i32 }
+    fn maxv() -> Self { i32::MAX }
+    fn bnot(self) -> Self { !self }
+    fn call_extra(op: &str, a: &Array<Self>, recv: Recv) -> Option<Keys> { on_recv!(recv, a, |r| numops_on(r, op)) }
+}
+macro_rules! elem_float {
+    ($t:ty, $ti:ty) => {
+        impl Elem for $t {
+            fn value(cls: &str, j: usize) -> Self { f64_value(cls, j) as $t }
+            fn f(self) -> f64 { self as f64 }
+            fn t(v: f64) -> Self { v as $t }
+            fn nan(self) -> bool { self != self }
+            fn inf(self) -> bool { self == <$t>::INFINITY || self == <$t>::NEG_INFINITY }
+            fn maxv() -> Self { <$t>::MAX }
+            fn bnot(self) -> Self { !(self as $ti) as $t }
+            fn call_extra(op: &str, a: &Array<Self>, recv: Recv) -> Option<Keys> {
+                match op { "signbit" | "spacing" => on_recv!(recv, a, |r| floating_on(r, op)), _ => on_recv!(recv, a, |r| numops_on(r, op)) }
+            }
+        }
+    };
+}
+elem_float!(f64, i128);
+elem_float!(f32, i64);
 
 const OPS_ALL: &[&str] = &["fix", "trunc", "floor", "ceil", "rint", "round0", "round2", "around1",
     "exp", "exp2", "exp_m1", "log", "log2", "log10", "log_1p",
@@ -96,24 +248,36 @@ const OPS_ALL: &[&str] = &["fix", "trunc", "floor", "ceil", "rint", "round0", "r
     "sinh", "cosh", "tanh", "asinh", "acosh", "atanh",
     "sqrt", "cbrt", "square", "absolute", "abs", "fabs", "sign", "nan_to_num", "i0", "sinc"];
 const OPS_FLOAT: &[&str] = &["signbit", "spacing"];
-
-fn round_native<N: Numeric>(x: N, d: isize) -> N {
-    let multiplier = 10_f64.powi(d as i32);
-    N::from((x.to_f64() * multiplier).round() / multiplier)
+/// one-operand ops of arithmetic.rs / binary.rs (same `self.map(..)` pattern; their Result-receiver forwarders sit next to the two-operand ones)
+const OPS_MORE: &[&str] = &["reciprocal", "negative", "positive", "bitwise_not", "invert"];
+/// ops whose trait is bounded by `NumericOps` (i8 i16 i32 i64 f32 f64)
+const OPS_NUMOPS: &[&str] = &["sin", "cos", "tan", "asin", "acos", "atan", "degrees", "rad2deg", "radians", "deg2rad", "i0", "sinc"];
+const ALL_TYPES: &[&str] = &["f64", "f32", "i32", "i8", "i16", "i64", "u8", "u16", "u32", "u64"];
+fn op_defined(op: &str, ty: &str) -> bool {
+    if OPS_FLOAT.contains(&op) { return ty == "f64" || ty == "f32"; }
+    if OPS_NUMOPS.contains(&op) { return !ty.starts_with('u'); }
+    true
 }
 
-/// the scalar kernel named in the op's body, evaluated natively: key of `f(x)`
+fn round_native<N: Elem>(x: N, d: i32) -> N {
+    let multiplier = 10_f64.powi(d);
+    N::t((x.f() * multiplier).round() / multiplier)
+}
+
+/// the scalar kernel named in the op's body, evaluated natively with the harness's own casts: key of `f(x)`
 fn native<N: Elem>(op: &str, x: N) -> u64 {
-    let f = x.to_f64();
-    let n = |y: f64| -> u64 { N::from(y).key() };
+    let f = x.f();
+    let zero = N::t(0.0);
+    let n = |y: f64| -> u64 { N::t(y).key() };
     match op {
-        "fix" => if x >= N::zero() { n(f.floor()) } else { n(f.ceil()) },
+        "fix" => if x >= zero { n(f.floor()) } else { n(f.ceil()) },
         "trunc" => n(f.trunc()), "floor" => n(f.floor()), "ceil" => n(f.ceil()),
         "rint" | "round0" => round_native(x, 0).key(),
         "round2" => round_native(x, 2).key(),
         "around1" => round_native(x, 1).key(),
         "exp" => n(f.exp()), "exp2" => n(f.exp2()), "exp_m1" => n(f.exp_m1()),
-        "log" => n(f.log(N::from(std::f64::consts::E).to_f64())),
+        // log = logn(single(N::from(e))): the base goes through the element type
+        "log" => n(f.log(N::t(std::f64::consts::E).f())),
         "log2" => n(f.log2()), "log10" => n(f.log10()), "log_1p" => n(f.ln_1p()),
         "sin" => n(f.sin()), "cos" => n(f.cos()), "tan" => n(f.tan()),
         "asin" => n(f.asin()), "acos" => n(f.acos()), "atan" => n(f.atan()),
@@ -122,64 +286,45 @@ fn native<N: Elem>(op: &str, x: N) -> u64 {
         "asinh" => n(f.asinh()), "acosh" => n(f.acosh()), "atanh" => n(f.atanh()),
         "sqrt" => n(f.sqrt()), "cbrt" => n(f.cbrt()), "square" => n(f.powi(2)),
         "absolute" | "abs" | "fabs" => n(f.abs()),
-        "sign" => (if x < N::zero() { -1isize } else { 1isize }).key(),
-        "nan_to_num" => (if ArrayElement::is_nan(&x) { N::zero() } else if x.is_inf() { Numeric::max(&x) } else { x }).key(),
+        "sign" => (if x < zero { -1isize } else { 1isize }).key(),
+        "nan_to_num" => (if x.nan() { zero } else if x.inf() { N::maxv() } else { x }).key(),
         // i0 is a 60-coefficient Chebyshev kernel private to the crate: the oracle applies the same op to the one-element array
-        "i0" => Array::single(x).i0().unwrap().get_elements().unwrap()[0].key(),
-        "sinc" => { let y = std::f64::consts::PI * if x == N::zero() { 1.0e-20 } else { f }; n(y.sin() / y) }
+        "i0" => match N::call_extra("i0", &Array::single(x).unwrap(), Recv::Plain) { Some(Ok((_, k))) if k.len() == 1 => k[0], _ => panic!("native: i0 on a one-element array") },
+        "sinc" => { let y = std::f64::consts::PI * if x == zero { 1.0e-20 } else { f }; n(y.sin() / y) }
         "signbit" => f.is_sign_negative().key(),
         "spacing" => { let bits = f.to_bits(); let next = if f.is_sign_negative() { bits - 1 } else { bits + 1 }; n(f64::from_bits(next) - f) }
+        "reciprocal" => n(f.recip()), "negative" => n(-f), "positive" => x.key(),
+        "bitwise_not" | "invert" => x.bnot().key(),
         _ => panic!("native: unknown op {op}"),
     }
 }
 
-/// run the real op; Ok((shape, keys)) or the outcome text
-fn real_unary<N: Elem>(op: &str, a: &Array<N>) -> Result<(Vec<usize>, Vec<u64>), String> {
-    fn keys<T: ArrayElement + Key>(r: Result<Array<T>, ArrayError>) -> Result<(Vec<usize>, Vec<u64>), String> {
-        match r {
-            Ok(arr) => {
-                if !consistent(&arr) { return Err("inconsistent".to_string()); }
-                Ok((arr.get_shape().unwrap(), arr.get_elements().unwrap().iter().map(Key::key).collect()))
-            }
-            Err(e) => Err(format!("err {}", err_name(&e))),
-        }
-    }
-    let a2 = a.clone();
-    let op2 = op.to_string();
-    let out = std::panic::catch_unwind(std::panic::AssertUnwindSafe(move || {
-        let a = &a2;
-        match op2.as_str() {
-            "fix" => keys(a.fix()), "trunc" => keys(a.trunc()), "floor" => keys(a.floor()), "ceil" => keys(a.ceil()),
-            "rint" => keys(a.rint()),
-            "round0" => keys(a.round(&Array::single(0).unwrap())),
-            "round2" => keys(a.round(&Array::single(2).unwrap())),
-            "around1" => keys(a.around(&Array::single(1).unwrap())),
-            "exp" => keys(a.exp()), "exp2" => keys(a.exp2()), "exp_m1" => keys(a.exp_m1()),
-            "log" => keys(a.log()), "log2" => keys(a.log2()), "log10" => keys(a.log10()), "log_1p" => keys(a.log_1p()),
-            "sin" => keys(a.sin()), "cos" => keys(a.cos()), "tan" => keys(a.tan()),
-            "asin" => keys(a.asin()), "acos" => keys(a.acos()), "atan" => keys(a.atan()),
-            "degrees" => keys(a.degrees()), "rad2deg" => keys(a.rad2deg()), "radians" => keys(a.radians()), "deg2rad" => keys(a.deg2rad()),
-            "sinh" => keys(a.sinh()), "cosh" => keys(a.cosh()), "tanh" => keys(a.tanh()),
-            "asinh" => keys(a.asinh()), "acosh" => keys(a.acosh()), "atanh" => keys(a.atanh()),
-            "sqrt" => keys(a.sqrt()), "cbrt" => keys(a.cbrt()), "square" => keys(a.square()),
-            "absolute" => keys(a.absolute()), "abs" => keys(a.abs()), "fabs" => keys(a.fabs()),
-            "sign" => keys(a.sign()), "nan_to_num" => keys(a.nan_to_num()),
-            "i0" => keys(a.i0()), "sinc" => keys(a.sinc()),
-            _ => Err("bad-op".to_string()),
-        }
-    }));
-    match out { Ok(r) => r, Err(_) => Err("panic".to_string()) }
+/// the ops of the traits bounded by `Numeric` only, on either receiver
+fn unary_on<N: Elem, R>(r: &R, op: &str) -> Option<Keys>
+where R: ArrayRounding<N> + ArrayExpLog<N> + ArrayHyperbolic<N> + ArrayMathMisc<N> + ArrayArithmetic<N> + ArrayBinary<N> {
+    Some(match op {
+        "fix" => keys(r.fix()), "trunc" => keys(r.trunc()), "floor" => keys(r.floor()), "ceil" => keys(r.ceil()),
+        "rint" => keys(r.rint()),
+        "round0" => keys(r.round(&Array::single(0).unwrap())),
+        "round2" => keys(r.round(&Array::single(2).unwrap())),
+        "around1" => keys(r.around(&Array::single(1).unwrap())),
+        "exp" => keys(r.exp()), "exp2" => keys(r.exp2()), "exp_m1" => keys(r.exp_m1()),
+        "log" => keys(r.log()), "log2" => keys(r.log2()), "log10" => keys(r.log10()), "log_1p" => keys(r.log_1p()),
+        "sinh" => keys(r.sinh()), "cosh" => keys(r.cosh()), "tanh" => keys(r.tanh()),
+        "asinh" => keys(r.asinh()), "acosh" => keys(r.acosh()), "atanh" => keys(r.atanh()),
+        "sqrt" => keys(r.sqrt()), "cbrt" => keys(r.cbrt()), "square" => keys(r.square()),
+        "absolute" => keys(r.absolute()), "abs" => keys(r.abs()), "fabs" => keys(r.fabs()),
+        "sign" => keys(r.sign()), "nan_to_num" => keys(r.nan_to_num()),
+        "reciprocal" => keys(r.reciprocal()), "negative" => keys(r.negative()), "positive" => keys(r.positive()),
+        "bitwise_not" => keys(r.bitwise_not()), "invert" => keys(r.invert()),
+        _ => return None,
+    })
 }
 
-fn real_unary_float<N: Elem + Floating>(op: &str, a: &Array<N>) -> Result<(Vec<usize>, Vec<u64>), String> {
-    let a2 = a.clone();
-    let op2 = op.to_string();
-    let out = std::panic::catch_unwind(std::panic::AssertUnwindSafe(move || -> Result<(Vec<usize>, Vec<u64>), String> {
-        match op2.as_str() {
-            "signbit" => a2.signbit().map(|r| (r.get_shape().unwrap(), r.get_elements().unwrap().iter().map(Key::key).collect())).map_err(|e| format!("err {}", err_name(&e))),
-            "spacing" => a2.spacing().map(|r| (r.get_shape().unwrap(), r.get_elements().unwrap().iter().map(Key::key).collect())).map_err(|e| format!("err {}", err_name(&e))),
-            _ => Err("bad-op".to_string()),
-        }
+/// run the real op on the given receiver; Ok((shape, keys)) or the outcome text
+fn real_unary<N: Elem>(op: &str, a: &Array<N>, recv: Recv) -> Keys {
+    let out = std::panic::catch_unwind(std::panic::AssertUnwindSafe(|| {
+        match on_recv!(recv, a, |r| unary_on(r, op)) { Some(k) => k, None => N::call_extra(op, a, recv).unwrap_or_else(|| Err("bad-op".to_string())) }
     }));
     match out { Ok(r) => r, Err(_) => Err("panic".to_string()) }
 }
@@ -190,7 +335,7 @@ fn build<N: Elem>(shape: &[usize], cls: &str, off: usize) -> Array<N> {
 }
 
 /// compare the real result with (model structure) x (native kernel)
-fn judge<N: Elem>(op: &str, a: &Array<N>, real: Result<(Vec<usize>, Vec<u64>), String>, expected: &str) -> Option<Verdict> {
+fn judge<N: Elem>(op: &str, a: &Array<N>, real: Keys, expected: &str) -> Option<Verdict> {
     let (shape, keys) = match real {
         Ok(x) => x,
         Err(s) => { if s == "bad-op" { return None; } return Some(compare_default(s, expected)); }
@@ -235,16 +380,41 @@ fn exec_unary(args: &[&str], expected: &str) -> Option<Verdict> {
     if OPS_BROADCAST_ROUTED.contains(&args[0]) { open_if_empty(v, n) } else { v }
 }
 
+fn show_keys(k: &Keys) -> String {
+    match k { Ok((s, v)) => format!("ok {}:{}", show_list(s), truncate(&v.iter().map(|b| format!("{b:#x}")).collect::<Vec<_>>().join(","), 300)), Err(e) => e.clone() }
+}
+
+/// plain receiver against model x native kernel; then `Ok(a).op()` must be bit-identical to `a.op()` and `Err(_).op()` an error
+fn run_unary<N: Elem>(op: &str, shape: &[usize], cls: &str, off: usize, expected: &str) -> Option<Verdict> {
+    let a = build::<N>(shape, cls, off);
+    let plain = real_unary(op, &a, Recv::Plain);
+    let v = judge(op, &a, plain.clone(), expected)?;
+    if let Verdict::Mismatch { .. } = v { return Some(v); }
+    let chained = real_unary(op, &a, Recv::Chained);
+    let same = match (&plain, &chained) { (Ok(x), Ok(y)) => x == y, (Err(x), Err(y)) => class_of(x) == class_of(y), _ => false };
+    if !same {
+        let at = match (&plain, &chained) { (Ok(x), Ok(y)) if x.0 == y.0 && x.1.len() == y.1.len() => (0..x.1.len()).find(|&p| x.1[p] != y.1[p]).map_or(String::new(), |p| format!(" (first difference at flat position {p}: input {}, chained bits {:#x}, plain bits {:#x})", a.get_elements().unwrap()[p], y.1[p], x.1[p])), _ => String::new() };
+        return Some(Verdict::Mismatch { observed: format!("RECEIVER-DIVERGENCE chained: {}", show_keys(&chained)),
+            detail: format!("the call on `Ok(array)` (impl for Result<Array<N>, ArrayError>) differs from the plain call, which gives `{}`{at}", show_keys(&plain)) });
+    }
+    let on_err = real_unary(op, &a, Recv::ErrRecv);
+    if !matches!(&on_err, Err(e) if class_of(e) == "err") {
+        return Some(Verdict::Mismatch { observed: format!("RECEIVER-DIVERGENCE on Err(_): {}", show_keys(&on_err)), detail: "the call on an `Err(_)` receiver must return the error".into() });
+    }
+    Some(v)
+}
+
 fn exec_unary_inner(args: &[&str], expected: &str) -> Option<Verdict> {
     let (op, ty, shape, cls) = (args[0], args[1], parse_usize_list(args[2]), args[3]);
     let off: usize = args[4].parse().ok()?;
-    let float_op = OPS_FLOAT.contains(&op);
-    match (ty, float_op) {
-        ("f64", false) => { let a = build::<f64>(&shape, cls, off); let r = real_unary(op, &a); judge(op, &a, r, expected) }
-        ("f32", false) => { let a = build::<f32>(&shape, cls, off); let r = real_unary(op, &a); judge(op, &a, r, expected) }
-        ("i32", false) => { let a = build::<i32>(&shape, cls, off); let r = real_unary(op, &a); judge(op, &a, r, expected) }
-        ("f64", true) => { let a = build::<f64>(&shape, cls, off); let r = real_unary_float(op, &a); judge(op, &a, r, expected) }
-        ("f32", true) => { let a = build::<f32>(&shape, cls, off); let r = real_unary_float(op, &a); judge(op, &a, r, expected) }
+    if !OPS_ALL.contains(&op) && !OPS_FLOAT.contains(&op) && !OPS_MORE.contains(&op) { return None; }
+    if !op_defined(op, ty) { return None; }
+    match ty {
+        "f64" => run_unary::<f64>(op, &shape, cls, off, expected), "f32" => run_unary::<f32>(op, &shape, cls, off, expected),
+        "i8" => run_unary::<i8>(op, &shape, cls, off, expected), "i16" => run_unary::<i16>(op, &shape, cls, off, expected),
+        "i32" => run_unary::<i32>(op, &shape, cls, off, expected), "i64" => run_unary::<i64>(op, &shape, cls, off, expected),
+        "u8" => run_unary::<u8>(op, &shape, cls, off, expected), "u16" => run_unary::<u16>(op, &shape, cls, off, expected),
+        "u32" => run_unary::<u32>(op, &shape, cls, off, expected), "u64" => run_unary::<u64>(op, &shape, cls, off, expected),
         _ => None,
     }
 }
@@ -264,17 +434,30 @@ fn exec_float(op: &str, args: &[&str], expected: &str) -> Option<Verdict> {
     let (shape, bits) = parse_bits_arr(args[1])?;
     let vals: Vec<f64> = bits.iter().map(|b| f64::from_bits(*b)).collect();
     fn widen<N: Numeric>(a: &Array<N>) -> Vec<f64> { a.get_elements().unwrap().iter().map(|x| x.to_f64()).collect() }
-    fn run<N: Floating>(op: &str, shape: &[usize], vals: &[f64], exps: Option<Array<i32>>) -> String {
-        let a: Array<N> = Array::new(vals.iter().map(|x| N::from(*x)).collect(), shape.to_vec()).expect("harness: float array");
+    fn float_on<N: Floating, R: ArrayFloating<N>>(r: &R, op: &str, exps: &Option<Array<i32>>) -> String {
         match op {
-            "frexp" => show_res(&a.frexp(), |(m, e)| format!("{};{}", show_bits_arr(&m.get_shape().unwrap(), &widen(m)), show_arr(e))),
-            "ldexp" => show_res(&a.ldexp(&exps.unwrap()), |r| show_bits_arr(&r.get_shape().unwrap(), &widen(r))),
-            "roundtrip" => match a.frexp() {
+            "frexp" => show_res(&r.frexp(), |(m, e)| format!("{};{}", show_bits_arr(&m.get_shape().unwrap(), &widen(m)), show_arr(e))),
+            "ldexp" => show_res(&r.ldexp(exps.as_ref().unwrap()), |r| show_bits_arr(&r.get_shape().unwrap(), &widen(r))),
+            "roundtrip" => match r.frexp() {
+                // the mantissa array goes back in on the same kind of receiver
                 Ok((m, e)) => show_res(&m.ldexp(&e), |r| show_bits_arr(&r.get_shape().unwrap(), &widen(r))),
                 Err(e) => format!("err {}", err_name(&e)),
             },
             _ => "bad-op".to_string(),
         }
+    }
+    /// plain receiver, then the same call on `Ok(array)` (must give the same text) and on `Err(_)` (must be an error)
+    fn run<N: Floating>(op: &str, shape: &[usize], vals: &[f64], exps: Option<Array<i32>>) -> String {
+        let a: Array<N> = Array::new(vals.iter().map(|x| N::from(*x)).collect(), shape.to_vec()).expect("harness: float array");
+        let plain = float_on(&a, op, &exps);
+        if plain == "bad-op" { return plain; }
+        let chained = guarded(|| { let r = ok_of(&a); let t = float_on(&r, op, &exps);
+            if op == "roundtrip" { if let Ok((m, e)) = r.frexp() { return show_res(&Ok(m).ldexp(&e), |r| show_bits_arr(&r.get_shape().unwrap(), &widen(r))); } }
+            t });
+        if chained != plain { return format!("RECEIVER-DIVERGENCE the call on `Ok(array)` gives `{}`, the plain call `{}`", truncate(&chained, 400), truncate(&plain, 400)); }
+        let on_err = guarded(|| float_on(&err_of(&a), op, &exps));
+        if class_of(&on_err) != "err" { return format!("RECEIVER-DIVERGENCE the call on an `Err(_)` receiver gives `{}`", truncate(&on_err, 300)); }
+        plain
     }
     let exps = if op == "ldexp" {
         let (es, ev) = parse_arr_raw(args[2]);
@@ -305,8 +488,7 @@ fn exec(op: &str, args: &[&str], expected: &str) -> Option<Verdict> {
     match op {
         "map" | "map_e" | "filter" | "filter_e" | "filter_map" | "filter_map_e" | "fold" | "for_each" | "for_each_e" =>
             Some(compare_default(exec_closure(op, args)?, expected)),
-        "into_iter" => { let a = parse_arr_i64(args[0]); Some(compare_default(guarded(|| { let v: Vec<i64> = a.into_iter().collect(); format!("ok {}", show_list(&v)) }), expected)) }
-        "into_iter_ref" => { let a = parse_arr_i64(args[0]); Some(compare_default(guarded(|| { let mut v: Vec<i64> = vec![]; for x in &a { v.push(*x); } format!("ok {}", show_list(&v)) }), expected)) }
+        "into_iter" | "into_iter_ref" => Some(compare_default(exec_closure(op, args)?, expected)),
         "collect" => { let l = parse_i64_list(args[0]); Some(compare_default(guarded(|| { let a: Array<i64> = l.into_iter().collect(); format!("ok {}", show_arr(&a)) }), expected)) }
         "zip" => {
             let (a, b) = (parse_arr_i64(args[0]), parse_arr_i64(args[1]));
@@ -462,6 +644,116 @@ fn gen(tier: &str, seed: u64, out: &mut dyn FnMut(String)) {
 
     // ---- "malformed" stream: C05's operations have no refusing inputs of their own (closures cannot fail, zip with unequal
     //      shapes belongs to C03); the degenerate inputs are the empty / zero-length arrays, enumerated above.
+
+    // ================= robustness streams (FRAMEWORK.md)
+    let mut rx = Rng::new(seed ^ 0xC05_0002);
+    let bigs = big_shapes();
+    let zeros = zero_shapes();
+    // ---- (a') closures beyond the small scope: every big shape (axis lengths 7..17, > 256 / 1024 / 4096 elements) and every
+    //      zero-length shape x every closure op; the closures' answers depend on the passed index (1000*i), on the number of earlier
+    //      calls (a*k) and on the element; every case also runs on the f64(-0.0) / u8 / String images (exec_closure)
+    let big_clos: [&str; 3] = ["3,5,1,7,3", "7,11,2,5,2", "1,0,0,2,1"];
+    for (si, s) in bigs.iter().chain(zeros.iter()).enumerate() {
+        let n: usize = s.iter().product();
+        // element patterns: tags, tags shifted, small repeated values (u8-representable: 0..=250 only when the tags are)
+        let reps: Vec<i64> = (0..n).map(|_| det.range(0, 9)).collect();
+        let arrs = [tag(s), tag_off(s, 17), format!("{}:{}", show_list(s), show_list(&reps))];
+        let n_clo = if thorough { 3 } else if n > 1100 { 1 } else { 2 };
+        for (ai, a) in arrs.iter().enumerate() {
+            if !thorough && n > 1100 && ai != si % 3 { continue; }
+            for c in &big_clos[(si % 3)..].iter().chain(big_clos[..(si % 3)].iter()).take(n_clo).collect::<Vec<_>>() {
+                for op in cl_ops { if op == "fold" { out(format!("fold {a} {c} {}", det.range(0, 50))); } else { out(format!("{op} {a} {c}")); } }
+            }
+            out(format!("into_iter {a}"));
+            out(format!("into_iter_ref {a}"));
+        }
+        out(format!("zip {} {}", arrs[0], tag_off(s, 1000)));
+        out(format!("zip {} {}", arrs[2], arrs[1]));
+        out(format!("collect {}", show_list(&reps)));
+    }
+    // random closures on random long shapes (index- and history-dependent by construction of Clo.val)
+    for _ in 0..(if thorough { 60 } else { 12 }) {
+        let s: Vec<usize> = match rx.below(3) { 0 => vec![257 + rx.below(900)], 1 => vec![7 + rx.below(11), 7 + rx.below(11), 1 + rx.below(4)], _ => vec![2 + rx.below(3), 1, 40 + rx.below(60), 2 + rx.below(3)] };
+        let c = format!("{},{},{},{},{}", rx.range(1, 20), rx.range(0, 20), rx.range(0, 9), rx.range(2, 12), rx.range(1, 11));
+        let a = tag_off(&s, rx.range(0, 100));
+        for op in ["map_e", "filter_e", "filter_map_e", "for_each_e", "map", "filter", "fold"] { if op == "fold" { out(format!("fold {a} {c} {}", rx.range(0, 50))); } else { out(format!("{op} {a} {c}")); } }
+    }
+
+    // ---- (b') one-operand ops: every op on every element type it is defined for (i8 i16 i32 i64 u8 u16 u32 u64 f32 f64), value
+    //      classes dom / lim (limits of the type, beyond 2^53 / 2^63, subnormals, -0.0) (+ edge / spec / mix for the floats); every
+    //      `unary` case — also those of the original stream — runs on the plain, the Ok(_) and the Err(_) receiver
+    let all_ops: Vec<&str> = OPS_ALL.iter().chain(OPS_FLOAT.iter()).chain(OPS_MORE.iter()).copied().collect();
+    let rshapes: Vec<Vec<usize>> = if thorough { let mut v = shapes(1, 3, 1, 3); v.extend(vec![vec![2, 1, 3, 2], vec![5, 7], vec![0]]); v }
+        else { vec![vec![1], vec![3], vec![7], vec![2, 3], vec![3, 1], vec![1, 2, 2], vec![3, 2, 3], vec![2, 1, 3, 2], vec![5, 9], vec![0]] };
+    for (si, s) in rshapes.iter().enumerate() {
+        for (oi, op) in all_ops.iter().enumerate() {
+            for (ti, ty) in ALL_TYPES.iter().enumerate() {
+                if !op_defined(op, ty) { continue; }
+                let float = *ty == "f64" || *ty == "f32";
+                let original = OPS_ALL.contains(op) || OPS_FLOAT.contains(op);
+                let mut classes: Vec<&str> = vec!["lim"];
+                // (dom for the original ops on f64 / f32 / i32 is the original stream)
+                if !(original && ti < 3) { classes.push("dom"); }
+                if float && !original { classes.extend(["edge", "spec", "mix"]); }
+                for (ci, cls) in classes.iter().enumerate() {
+                    if !thorough && classes.len() > 2 && (si + oi + ci) % 2 == 1 { continue; }
+                    out(format!("unary {op} {ty} {} {cls} {}", show_list(s), (si * 7 + oi * 3 + ti + ci) % 60));
+                }
+            }
+        }
+    }
+    //      sizes and zero-length axes: big_shapes() / zero_shapes() x every op; quick: two element types in rotation, thorough: all
+    //      (for > 1100 elements: three in rotation)
+    for (si, s) in bigs.iter().chain(zeros.iter()).enumerate() {
+        let n: usize = s.iter().product();
+        for (oi, op) in all_ops.iter().enumerate() {
+            let tys: Vec<&str> = ALL_TYPES.iter().filter(|ty| op_defined(op, ty)).copied().collect();
+            for (ti, ty) in tys.iter().enumerate() {
+                let pick = if thorough { n <= 1100 || (si + oi) % tys.len() == ti || (si + oi + 1) % tys.len() == ti || (si + oi + 4) % tys.len() == ti }
+                    else { (si + oi) % tys.len() == ti || (si + 2 * oi + 3) % tys.len() == ti };
+                if !pick { continue; }
+                let float = *ty == "f64" || *ty == "f32";
+                let cls = if float { ["dom", "lim", "edge", "mix", "spec"][(si + oi + ti) % 5] } else { ["dom", "lim"][(si + oi + ti) % 2] };
+                out(format!("unary {op} {ty} {} {cls} {}", show_list(s), (si + oi * 5 + ti) % 60));
+            }
+        }
+    }
+
+    // ---- (c') frexp / ldexp / recombination on long and zero-length arrays (every case runs on the three receivers)
+    let long_shapes: Vec<Vec<usize>> = if thorough { vec![vec![300], vec![17, 16], vec![1030], vec![9, 9], vec![2, 3, 4, 5, 2], vec![16, 17], vec![4, 4, 4, 4], vec![8, 3], vec![40, 30], vec![4100]] }
+        else { vec![vec![300], vec![17, 16], vec![1030], vec![9, 9], vec![2, 3, 4, 5, 2]] };
+    let mut pi = 0usize;
+    for s in &long_shapes {
+        let n: usize = s.iter().product();
+        let chunk: Vec<u64> = (0..n).map(|j| pool[(pi + j * 7) % pool.len()]).collect();
+        pi += n;
+        let body = format!("{}:{}", show_list(s), show_list(&chunk));
+        out(format!("frexp f64 {body}"));
+        out(format!("roundtrip f64 {body}"));
+        let xs: Vec<u64> = (0..n).map(|_| { let ex = (1023 + rx.range(-300, 300)) as u64; ((rx.below(2) as u64) << 63) | (ex << 52) | (rx.next() & ((1u64 << 52) - 1)) }).collect();
+        let es: Vec<i64> = (0..n).map(|_| match rx.below(5) { 0 => 0, 1 => rx.range(-3, 3), _ => rx.range(-300, 300) }).collect();
+        out(format!("ldexp f64 {}:{} {}:{}", show_list(s), show_list(&xs), show_list(s), show_list(&es)));
+        // f32: exactly representable values
+        let f32s: Vec<u64> = (0..n).map(|_| bits_of(f32::from_bits(((rx.below(2) as u32) << 31) | (((127 + rx.range(-100, 100)) as u32) << 23) | ((rx.next() as u32) & 0x7f_ffff)) as f64)).collect();
+        let body32 = format!("{}:{}", show_list(s), show_list(&f32s));
+        out(format!("frexp f32 {body32}")); out(format!("roundtrip f32 {body32}"));
+    }
+    // every binary64 subnormal exponent and the top binade, in long lanes (the normalisation loops run longest there)
+    {
+        let sub: Vec<u64> = (0..52).flat_map(|k| [1u64 << k, (1u64 << k) | 1, (1u64 << 63) | (1u64 << k), (1u64 << (k + 1)) - 1]).collect();
+        let top: Vec<u64> = (0..64).map(|k| (2046u64 << 52) | (rx.next() & ((1u64 << 52) - 1)) | ((k as u64 % 2) << 63)).collect();
+        for (name, v) in [("sub", sub), ("top", top)] {
+            let _ = name;
+            let body = format!("{}:{}", v.len(), show_list(&v));
+            out(format!("frexp f64 {body}")); out(format!("roundtrip f64 {body}"));
+        }
+    }
+    for z in &zeros {
+        out(format!("frexp f64 {}:-", show_list(z)));
+        out(format!("roundtrip f64 {}:-", show_list(z)));
+        out(format!("frexp f32 {}:-", show_list(z)));
+        out(format!("ldexp f64 {}:- {}:-", show_list(z), show_list(z)));
+    }
 
     // ---- corpus: frexp(±inf) — never returns on the pinned tree (watchdog -> `hang`)
     out(format!("frexp f64 1:{}", bits_of(f64::INFINITY)));
